@@ -484,3 +484,68 @@ def feasible_nonoptimal(model, result, rng_index):
     if not found:
         return None
     return found[rng_index % len(found)]
+
+
+def within_gap(model, result, tol, index=0, beam=6):
+    """The answer of a solver that was told it may stop within a gap: a feasible assignment whose objective is
+    worse than the optimum by at most `tol` (> 0) - the worst one found by moving one or two one-hot choices of
+    an optimal solution.  None when no such assignment was found (the solver then simply returns an optimum).
+    Deterministic given `index`."""
+    if result["status"] != "optimal" or tol <= 0 or not len(result["solutions"]):
+        return None
+    best = result["value"]
+    sign = 1 if model.maximise else -1
+    eq_rows = [sorted(coefs) for _, coefs, sense, rhs in model.rows
+               if sense == 0 and rhs == 1 and all(k == 1 for k in coefs.values())]
+    nsol = len(result["solutions"])
+    bases = [dict(result["solutions"][k]) for k in sorted({0, nsol - 1, index % nsol})]
+
+    def neighbours(base):
+        for vs in eq_rows:
+            ones = [v for v in vs if base[v] == 1]
+            if len(ones) != 1:
+                continue
+            for v in vs:
+                if base[v] == 0:
+                    cand = dict(base)
+                    cand[ones[0]] = 0
+                    cand[v] = 1
+                    yield cand
+
+    found = {}
+    frontier = bases
+    for _depth in range(2):
+        layer = []
+        for base in frontier:
+            for cand in neighbours(base):
+                key = tuple(cand[v] for v in model.names)
+                if key in found:
+                    continue
+                if not model.feasible(cand):
+                    continue
+                loss = sign * (best - model.evaluate(cand))
+                if 0 < loss <= tol:
+                    found[key] = (loss, cand)
+                    layer.append((loss, key, cand))
+        layer.sort(key=lambda t: (-t[0], t[1]))
+        frontier = [c for _, _, c in layer[:beam]]
+        if not frontier:
+            break
+    if not found:
+        return None
+    worst = max(l for l, _ in found.values())
+    ties = sorted(k for k, (l, _) in found.items() if l == worst)
+    return found[ties[index % len(ties)]][1]
+
+
+def gap_tolerance(rel, ab, optimum):
+    """How far from the optimum a solver given these stopping tolerances is entitled to stop."""
+    tol = 0
+    try:
+        if rel is not None and float(rel) > 0:
+            tol = max(tol, Fraction(float(rel)).limit_denominator(10**9) * abs(Fraction(optimum)))
+        if ab is not None and float(ab) > 0:
+            tol = max(tol, Fraction(float(ab)).limit_denominator(10**9))
+    except (TypeError, ValueError):
+        return 0
+    return tol
